@@ -1301,12 +1301,13 @@ class BaseOutlineCompiler:
                     self.otf.sfntVersion = sfntVersion
 
 
-def _cffString(s):
-    """CFF strings are stored as Latin-1: leave encodable strings alone,
-    reduce the others to ASCII."""
+def _cffString(s, encoding="latin-1"):
+    """CFF strings are stored as Latin-1 (FullName, FamilyName, Notice,
+    Copyright) or as ASCII (the font name, Weight): leave encodable strings
+    alone, reduce the others to ASCII."""
     if s is not None:
         try:
-            s.encode("latin-1")
+            s.encode(encoding)
         except UnicodeEncodeError:
             s = normalizeStringForPostscript(s)
     return s
@@ -1518,7 +1519,7 @@ class OutlineOTFCompiler(BaseOutlineCompiler):
         # populate naming data
         info = self.ufo.info
         psName = getAttrWithFallback(info, "postscriptFontName")
-        cff.fontNames.append(psName)
+        cff.fontNames.append(_cffString(psName, "ascii"))
         topDict = cff.topDictIndex[0]
         topDict.version = "%d.%d" % (
             getAttrWithFallback(info, "versionMajor"),
@@ -1558,7 +1559,9 @@ class OutlineOTFCompiler(BaseOutlineCompiler):
         topDict.FamilyName = _cffString(
             getAttrWithFallback(info, "openTypeNamePreferredFamilyName")
         )
-        topDict.Weight = _cffString(getAttrWithFallback(info, "postscriptWeightName"))
+        topDict.Weight = _cffString(
+            getAttrWithFallback(info, "postscriptWeightName"), "ascii"
+        )
         # populate various numbers
         topDict.isFixedPitch = int(getAttrWithFallback(info, "postscriptIsFixedPitch"))
         topDict.ItalicAngle = float(getAttrWithFallback(info, "italicAngle"))
